@@ -21,7 +21,8 @@ CBMC_BASE = ["--unwinding-assertions", "--pointer-overflow-check", "--undefined-
              "--json-ui", "--verbosity", "4"]
 
 NATIVE_CC = ["clang", "-O1", "-g", "-fsanitize=address,undefined", "-fno-sanitize-recover=all", "-fno-sanitize=shift-base",
-             "-fno-omit-frame-pointer", "-DVERIF_NATIVE", "-w"]
+             "-fno-omit-frame-pointer", "-DVERIF_NATIVE", "-w",
+             "-Werror=implicit-function-declaration", "-Werror=int-conversion", "-Werror=return-type"]
 
 
 class Ob(object):
